@@ -20,6 +20,12 @@ def run(ctx):
                 keep.append(b)
             seen.add(k)
         base = keep
+    # the largest frames the 16-bit length field allows; mutations confined to the first / last bytes
+    p, n = swcorpus.gen(ctx, "BIG", "{7}")
+    for r in vlib.read_ndjson(p):
+        if q and r["kind"] not in ("flowstats", "flowstats-instr", "hello", "flowmod"):
+            continue
+        base.append(dict(id=r["id"], entry="Parse", kind=r["kind"], frame=r["frame"], win=[24, 64] if q else r["win"]))
     sp, nb, nm = totality.mutate(ctx, base, "of", depth2=not q, maxlen=300 if q else 1200)
     tr, recs = totality.run(ctx, sp, "of")
     ctx.extra.update(base_frames=nb, mutants=nm, distinct_nontrivial=nm)
@@ -28,7 +34,8 @@ def run(ctx):
     return vlib.finish(
         ctx, "model_checking",
         "OFMutate.tla lists, for each of %d base frames written by the specification's encoder (every kind Parse dispatches: "
-        "switch-originated kinds, packet-in with packets, multipart replies, and the controller-originated kinds with every action kind), "
+        "switch-originated kinds, packet-in with packets, multipart replies, the controller-originated kinds with every action kind, and "
+        "maximal frames of 65 480 - 65 535 bytes mutated in their first and last bytes), "
         "every truncation point, every byte position x 8-bit boundary values, every 16-bit position x length-like boundary values (0, 1, "
         "3, 4, 7, 8, len-1, len, len+1, 0x7fff, 0x8000, 0xfffe, 0xffff, +-1, +8), 32-bit fills, extensions%s: %d mutants. Each is fed to "
         "openflow13.Parse in a watched child process (CPU-time budget 2 s confirmed alone at 4 s, heap cap 1.5 GB); TLC judges the acceptor: "
